@@ -145,6 +145,11 @@ func c09(c *orch.Ctx) (*report.Result, error) {
 		for i := 0; i < n; i++ {
 			r := rng.New(c.Seed, "C09", fmt.Sprint(i))
 			p := synth.Gen(r, c09Profile, fmt.Sprintf("p%04d", i), lab.ModPath)
+			if i%8 == 5 && len(p.Controllers) > 0 && len(p.Controllers[0].Methods) > 0 && p.Controllers[0].Methods[0].IsEndpoint() {
+				// a verb in lower case is not a supported spelling: the run has to fail, not to emit engine.get(...)
+				p.Controllers[0].Methods[0].Verb = strings.ToLower(p.Controllers[0].Methods[0].Verb)
+				p.SetFeature("lower-case-verb")
+			}
 			projects = append(projects, p)
 			optsList = append(optsList, RouterOpts{ValidateResp: i%2 == 1, TopLevelEnum: i%4 >= 2, EnumValid: i%3 == 0})
 		}
